@@ -5,22 +5,6 @@ From KMW Require Import gen.Tables.
 Import ListNotations.
 Open Scope string_scope.
 
-(* every certificate-signing call in cmd/keymasterd is the start-up CA construction or is followed,
-   before anything is written to the response or handed back to the caller, by a Publish* call of
-   the bytes it produced *)
-Lemma c20_sites_publish : forallb site_row_ok signing_sites = true.
-Proof. vm_compute. reflexivity. Qed.
-Goal True. idtac "@@OBL c20_sites_publish". Abort.
-
-(* hence every row satisfies the specification `reported` for every certificate *)
-Lemma c20_sites_reported : forall fn callee class pub, In (fn, callee, class, pub) signing_sites ->
-  class = "ca-init" \/ forall ty c, reported c (site_effects ty pub c).
-Proof.
-  intros fn callee class pub H. apply (site_row_reported fn callee class pub).
-  pose proof c20_sites_publish as F. rewrite forallb_forall in F. exact (F _ H).
-Qed.
-Goal True. idtac "@@OBL c20_sites_reported". Abort.
-
 (* the table is not empty where it matters: the four signing functions are seen on an issuing path *)
 Definition has_issue_site (callee : string) : bool :=
   existsb (fun r : string * string * string * string =>
@@ -37,3 +21,20 @@ Lemma c20_sends_nonblocking :
   forallb (fun r : string * string => String.eqb (snd r) "select-default") notifier_publish_sends = true.
 Proof. vm_compute. reflexivity. Qed.
 Goal True. idtac "@@OBL c20_sends_nonblocking". Abort.
+
+(* every certificate-signing call in cmd/keymasterd is the start-up CA construction or is followed,
+   before anything is written to the response or handed back to the caller, by a Publish* call of
+   the bytes it produced *)
+Lemma c20_sites_publish : forallb site_row_ok signing_sites = true.
+Proof. vm_compute. reflexivity. Qed.
+Goal True. idtac "@@OBL c20_sites_publish". Abort.
+
+(* hence every row satisfies the specification `reported` for every certificate *)
+Lemma c20_sites_reported : forall fn callee class pub, In (fn, callee, class, pub) signing_sites ->
+  class = "ca-init" \/ forall ty c, reported c (site_effects ty pub c).
+Proof.
+  intros fn callee class pub H. apply (site_row_reported fn callee class pub).
+  pose proof c20_sites_publish as F. rewrite forallb_forall in F. exact (F _ H).
+Qed.
+Goal True. idtac "@@OBL c20_sites_reported". Abort.
+
